@@ -383,6 +383,16 @@ def _gen_failing_step(rng, sim, named):
             return {"op": "add", "line": "L\t%s\t%s\t%s\t%s\t%s\tID:Z:%s" % (t, S.inv(to), f, S.inv(fo),
                                                                           S.cigar_complement(ov) if ov != "*" else ov, x.tag("ID")[1]),
                     "as": rng.choice(["str", "line"])}
+    if v == "gfa1" and rng.random() < 0.1:
+        # a link which joins the ends of a stored link the other way round with ANOTHER overlap (not its
+        # complement, a different edge) and carries its identifier
+        ls = [x for x in sim.recs if x.rt == "L" and x.tag("ID")]
+        if ls:
+            x = rng.choice(ls)
+            f, fo, t, to, ov = x.pos[:5]
+            other = rng.choice([o for o in ("3M", "4M", "2M1I", "7M") if o != ov and S.cigar_complement(o) != ov])
+            return {"op": "add", "line": "L\t%s\t%s\t%s\t%s\t%s\tID:Z:%s" % (t, S.inv(to), f, S.inv(fo), other, x.tag("ID")[1]),
+                    "as": rng.choice(["str", "line"])}
     if v == "gfa1" and named and rng.random() < 0.25:
         # a link which takes the place of the placeholder link of a path (the path arrived first), and
         # which carries an identifier that is in use
@@ -1088,6 +1098,10 @@ def _apply_model_preview(model, st):
     if op == "rename":
         return rename_verdict(model, r, st["new"])
     if op == "reconnect":
+        if r.text() != st["text"]:
+            # the record is not (any more) the one the step was generated for (a probe the generator
+            # took for accepted was refused, or the other way round): the edit is not applicable
+            return "skip"
         return _reconnect_verdict(model, r, st)[0]
     if op == "settag" and st["tag"] == "ID" and r.rt in ("L", "C"):
         other = model.by_name(st["value"])
